@@ -208,7 +208,34 @@ def tag_iter_case(_=None):
   if got != want:
     viols.append(dict(what=f'tag selection iterated {got}, expected {want}', tagiter=True,
                       shape=[], sig='tag-iter', store='', op=''))
-  return 1, 1, viols, []
+  # tag hierarchies: selecting by a tag reaches arguments tagged with it, its subclasses and their
+  # subclasses (iteration and replace), and nothing tagged otherwise
+  def g(u=1, v=2, w=3, x=4, y=5):
+    return None
+  def mk():
+    inner = fdl.Config(g)
+    fdl.add_tag(inner, 'u', pool.TagA)
+    fdl.add_tag(inner, 'v', pool.TagA1)
+    fdl.add_tag(inner, 'w', pool.TagA2)
+    fdl.add_tag(inner, 'x', pool.TagB)
+    fdl.set_tags(inner, 'y', [pool.TagB, pool.TagA2])
+    return fdl.Config(pool.fc, inner, q=[inner, fdl.Config(g, w=pool.TagA2.new(30))])
+  for tag, want_vals in ((pool.TagA, [1, 2, 3, 5, 30]), (pool.TagA1, [2, 3, 5, 30]), (pool.TagA2, [3, 5, 30]),
+                         (pool.TagB, [4, 5])):
+    got_vals = sorted(selectors.select(mk(), tag=tag))
+    if got_vals != want_vals:
+      viols.append(dict(what=f'select(tag={tag.__name__}) over a three-level tag hierarchy iterated {got_vals}, the '
+                             f'arguments whose tags are {tag.__name__} or derive from it hold {want_vals}',
+                        tagiter=True, shape=[], sig='tag-iter', store=tag.__name__, op=''))
+    root = mk()
+    selectors.select(root, tag=tag).replace('R')
+    inner = root.p
+    now = [inner.u, inner.v, inner.w, inner.x, inner.y, root.q[1].w]
+    want_now = ['R' if v in want_vals else v for v in (1, 2, 3, 4, 5, 30)]
+    if now != want_now:
+      viols.append(dict(what=f'select(tag={tag.__name__}).replace over a three-level tag hierarchy left {now}, '
+                             f'expected {want_now}', tagiter=True, shape=[], sig='tag-iter', store=tag.__name__, op=''))
+  return 5, 5, viols, []
 
 
 def bound_method_case(_=None):
